@@ -21,3 +21,9 @@ __CPROVER_ensures((height % KI != 0 && rounds == 1) ==> RET == 0)
 __CPROVER_ensures((*ksr != 0) == (RET == ksround))
 /* "first round after a keystone" <=> fewer than payoutRounds blocks past the keystone */
 __CPROVER_ensures((*first != 0) == (height % KI < rounds));
+
+/* "score from relative VBK publication height": every entry of the lookup table is used, nothing outside it */
+int w_multiplier_c(int relativeBlock, size_t tablen)
+__CPROVER_requires(tablen <= 0x7fffffffUL)
+__CPROVER_assigns()
+__CPROVER_ensures(RET == ((relativeBlock >= 0 && (size_t)relativeBlock < tablen) ? relativeBlock : -1));
